@@ -459,6 +459,12 @@ func (f *Frame) callFunction(st *State, in ssa.Instruction, fn *ssa.Function, bi
 	if vc.p.inModule(fn) && len(fn.Blocks) > 0 && !hasLoop(fn) && !f.inStack(fn) && f.depth < maxInlineDepth {
 		return f.inline(st, in, fn, bindings, args)
 	}
+	if vc.p.inModule(fn) && hasLoop(fn) && !f.inStack(fn) && f.depth < maxInlineDepth {
+		if base, ok := vc.canAdopt(fn); ok {
+			vc.note("helper %s (no contract) is inlined; its loops are verified against the loop contracts %d.. of %s", fn.Name(), base, vc.funcName())
+			return f.inlineAdopt(st, in, fn, bindings, args, base)
+		}
+	}
 	if fn.Synthetic != "" && len(fn.Blocks) > 0 && !hasLoop(fn) && !f.inStack(fn) && f.depth < maxInlineDepth {
 		// method wrappers / bound-method closures of external types
 		return f.inline(st, in, fn, bindings, args)
@@ -514,6 +520,26 @@ func valueOnlySig(sig *types.Signature) bool {
 		}
 	}
 	return true
+}
+
+func (f *Frame) inlineAdopt(st *State, in ssa.Instruction, fn *ssa.Function, bindings []Value, args []Value, base int) (*State, []Value) {
+	vc := f.vc
+	nf := vc.newFrame(fn, f)
+	nf.params = args
+	nf.freeVars = bindings
+	nf.entry = st
+	nf.adoptBase = base
+	for i, prm := range fn.Params {
+		if i < len(args) && prm.Name() != "" && prm.Name() != "_" {
+			nf.vars[prm.Name()] = scopeVar{args[i].T, prm.Type()}
+		}
+	}
+	vc.inlinedFns[vc.p.funcKey(fn)] = true
+	out, vals, ok := nf.execBody(st)
+	if !ok {
+		return nil, nil
+	}
+	return out, vals
 }
 
 func (f *Frame) inline(st *State, in ssa.Instruction, fn *ssa.Function, bindings []Value, args []Value) (*State, []Value) {
@@ -585,12 +611,26 @@ func (f *Frame) applyContract(st *State, in ssa.Instruction, ct *Contract, sig *
 	if ct.RecvAlias != "" && len(args) > 0 && sig.Recv() != nil {
 		sc.vars[ct.RecvAlias] = scopeVar{args[0].T, typs[0]}
 	}
+	if fn != nil && len(fn.Params) == len(args) {
+		for i, prm := range fn.Params {
+			if old := vc.p.contractName(fn, prm.Name()); old != prm.Name() {
+				if _, taken := sc.vars[old]; !taken {
+					sc.vars[old] = scopeVar{args[i].T, typs[i]}
+				}
+			}
+		}
+	}
 	// a closure's contract speaks about its captured variables by name: their content when the closure is called
 	if fn != nil && len(fn.FreeVars) > 0 && len(f.pendingBindings) == len(fn.FreeVars) {
 		for i, fv := range fn.FreeVars {
 			elem := fv.Type().Underlying().(*types.Pointer).Elem()
 			if _, taken := sc.vars[fv.Name()]; !taken {
 				sc.vars[fv.Name()] = scopeVar{f.load(pre, f.pendingBindings[i], elem), elem}
+			}
+			if old := vc.p.contractName(fn, fv.Name()); old != fv.Name() {
+				if _, taken := sc.vars[old]; !taken {
+					sc.vars[old] = scopeVar{f.load(pre, f.pendingBindings[i], elem), elem}
+				}
 			}
 		}
 	}
@@ -722,6 +762,30 @@ func (f *Frame) applyContract(st *State, in ssa.Instruction, ct *Contract, sig *
 			vc.aliveBound(nw, ntop)
 			st.SetHeap(hn, nw)
 		}
+		// ... and the references their fields hold are allocated by now (the caller keeps the heap value it had: the
+		// content at addresses that were not allocated then is unconstrained, see storedRefsAllocated)
+		done := map[string]bool{}
+		for _, hn := range byHeapDone {
+			done[hn] = true
+		}
+		for _, k := range sortedKeys(at) {
+			stt, isS := at[k].Underlying().(*types.Struct)
+			if !isS {
+				continue
+			}
+			for i := 0; i < stt.NumFields(); i++ {
+				ft := stt.Field(i).Type()
+				if isStruct(ft) || isArray(ft) {
+					continue
+				}
+				hn, hs := vc.env.fieldHeap(at[k], i)
+				if done[hn] || arrayKeySort(hs) != SInt {
+					continue
+				}
+				done[hn] = true
+				vc.storedRefsAllocated(hn, st.Heap(vc, hn, hs), ntop)
+			}
+		}
 	}
 	// results
 	var vals []Value
@@ -770,6 +834,12 @@ func (f *Frame) applyContract(st *State, in ssa.Instruction, ct *Contract, sig *
 		if ok {
 			vc.assumeIn(st, t)
 		}
+	}
+	if os.Getenv("GOVC_CALLCOVERS") != "" && in != nil {
+		// development aid: a call whose pre-state is reachable but whose post-state is not means that the callee's
+		// contract contradicts what the caller knows - everything after the call would be verified vacuously
+		vc.addCover(pre, "before:"+anchor)
+		vc.addCover(st, "after:"+anchor)
 	}
 	return st, vals
 }
@@ -880,7 +950,7 @@ func (vc *VC) dispatchFor(in ssa.Instruction) *DispatchSpec {
 	if !ok {
 		return nil
 	}
-	name := calleeName(ci.Common())
+	name := vc.p.contractName(vc.fn, calleeName(ci.Common()))
 	a := vc.anchorOf(in)
 	ord := 0
 	if j := strings.LastIndex(a, "#"); j >= 0 {
@@ -1000,7 +1070,7 @@ func (vc *VC) callAsFor(in ssa.Instruction) *CallAs {
 	if !ok {
 		return nil
 	}
-	name := calleeName(ci.Common())
+	name := vc.p.contractName(vc.fn, calleeName(ci.Common()))
 	a := vc.anchorOf(in)
 	ord := 0
 	if j := strings.LastIndex(a, "#"); j >= 0 {
@@ -1157,6 +1227,7 @@ func (vc *VC) anchorNameOrd(in ssa.Instruction) (string, int, bool) {
 	default:
 		return "", 0, false
 	}
+	name = vc.p.contractName(vc.fn, name)
 	a := vc.anchorOf(in) // call:name#k
 	ord := 0
 	if j := strings.LastIndex(a, "#"); j >= 0 {
